@@ -72,12 +72,44 @@ def sig(variant, a, dt, lo, hi, se=True):
         elif variant == "cumsq":
             # a user-supplied cumulative measure that does NOT start at zero: the running sum of squares (must agree with
             # the array variant, whose cumulative series is the same)
-            r = im.calc_sig_dur(mk(), start=lo, end=hi, im=lambda s: np.cumsum(np.asarray(s.values, dtype=float) ** 2), se=se)
+            r = im.calc_sig_dur(mk(), start=lo, end=hi, im=as_callable(lambda s: np.cumsum(np.asarray(s.values, dtype=float) ** 2)), se=se)
         else:
-            r = im.calc_sig_dur(mk(), start=lo, end=hi, im=im.calc_cav, se=se)
+            r = im.calc_sig_dur(mk(), start=lo, end=hi, im=as_callable(im.calc_cav), se=se)
     except IndexError:
         return (1, 0.0, 0.0) if se else (1, 0.0)
     return (0, float(r[0]), float(r[1])) if se else (0, float(r))
+
+
+class _Measure(object):
+    """a measure given as an object with __call__ / as a bound method"""
+    def __init__(self, fn):
+        self.fn = fn
+
+    def __call__(self, s):
+        return self.fn(s)
+
+    def evaluate(self, s):
+        return self.fn(s)
+
+
+_KIND = [0]
+
+
+def as_callable(fn):
+    """the user-supplied measure in the forms a caller may hand over: plain function, lambda, functools.partial,
+    callable object, bound method (rotating)"""
+    import functools
+    _KIND[0] += 1
+    k = _KIND[0] % 5
+    if k == 0:
+        return fn
+    if k == 1:
+        return lambda s: fn(s)
+    if k == 2:
+        return functools.partial(lambda scale, s: fn(s), 1.0)
+    if k == 3:
+        return _Measure(fn)
+    return _Measure(fn).evaluate
 
 
 def brac(a, dt, thr):
@@ -131,9 +163,10 @@ def build_traces(path, tier, seed):
             a = np.round(a / (np.max(np.abs(a)) + 1e-300) * 4)     # integer valued: exact ties with dyadic fractions
         dt = gen.dt(rng)
         variant = ["vals", "arias", "cav", "cumsq"][i % 4]
-        if i % 4 == 0:
+        fsel = int(rng.integers(4))
+        if fsel == 0:
             lo, hi = 0.05, 0.95
-        elif i % 4 == 1:
+        elif fsel == 1:
             lo, hi = PAIRS[rng.integers(len(PAIRS))]
         else:
             lo = float(rng.uniform(0.01, 0.6))
